@@ -14,7 +14,7 @@
 
 use crate::models::to_u128;
 use crate::report::{Report, Tier, Violation};
-use constriction::backends::{BoundedWriteError, Cursor, FallibleCallbackWriteWords};
+use constriction::backends::{BoundedWriteError, Cursor, FallibleCallbackWriteWords, Reverse};
 use constriction::stream::chain::ChainCoder;
 use constriction::stream::model::*;
 use constriction::stream::queue::{RangeDecoder, RangeEncoder};
@@ -336,9 +336,11 @@ fn faults_part(report: &Report, depth: usize) {
             if dec != h[..done].iter().rev().map(|&s| Some(s)).collect::<Vec<_>>() {
                 viol(report, "AnsCoder on a bounded backend | symbols encoded before a failed write do not decode".into(), format!("history {:?} capacity {cap}: decoded {:?}", h, dec));
             }
-            // encoding continues after room is made (pop one symbol, then push it again)
+            // encoding continues after room is made (pop one symbol, then push it again); a second refused
+            // write in between must be as harmless as the first
             if failed && done > 0 {
-                let s_top = c.decode_symbol(&cat).unwrap();
+                let _ = c.encode_symbol(h[done], &cat);
+                let s_top = match c.decode_symbol(&cat) { Ok(s) => s, Err(_) => { viol(report, "AnsCoder on a bounded backend | cannot decode after a refused write".into(), format!("history {:?} capacity {cap}", h)); continue; } };
                 if c.encode_symbol(s_top, &cat).is_err() {
                     viol(report, "AnsCoder on a bounded backend | cannot continue encoding after room was made".into(), format!("history {:?} capacity {cap}", h));
                 }
@@ -377,6 +379,50 @@ fn faults_part(report: &Report, depth: usize) {
                 let dec: Vec<Option<usize>> = (0..done).map(|_| d.decode_symbol(&cat).ok()).collect();
                 if dec != h[..done].iter().rev().map(|&s| Some(s)).collect::<Vec<_>>() {
                     viol(report, "AnsCoder::get_compressed on a bounded backend | coder corrupted by a (partially) failing write of the state words".into(), format!("history {:?} capacity {cap}: later decode {:?}", h, dec));
+                }
+            }
+        }
+        // ---- the same fault points on a bounded REVERSED cursor (writes run towards the start of the buffer)
+        for cap in 0..=needed + 1 {
+            let mut c = AnsCoder::<u8, u32, Reverse<Cursor<u8, Vec<u8>>>>::from_raw_parts(Cursor::new_at_write_beginning(vec![0xEE; cap]).into_reversed(), 0);
+            let mut done = 0usize;
+            let mut failed = false;
+            for (i, &s) in h.iter().enumerate() {
+                let before = (c.bulk().0.pos(), c.state());
+                n += 1;
+                match c.encode_symbol(s, &cat) {
+                    Ok(()) => done = i + 1,
+                    Err(CoderError::Backend(BoundedWriteError::OutOfSpace)) => {
+                        failed = true;
+                        failures += 1;
+                        let after = (c.bulk().0.pos(), c.state());
+                        if after != before {
+                            viol(report, "AnsCoder::encode_symbol on a full bounded reversed backend | coder changed by the failed write".into(),
+                                format!("history {:?} capacity {cap}: symbol #{i}: (pos {}, state {:x}) -> (pos {}, state {:x})", h, before.0, before.1, after.0, after.1));
+                        }
+                        break;
+                    }
+                    Err(e) => { viol(report, "AnsCoder::encode_symbol on a full bounded reversed backend | wrong error".into(), format!("history {:?} capacity {cap}: {:?}", h, e)); break; }
+                }
+            }
+            if !failed && cap < needed { viol(report, "AnsCoder::encode_symbol on a bounded reversed backend | wrote beyond the capacity".into(), format!("history {:?} capacity {cap} needed {needed}", h)); }
+            let expect: Vec<Option<usize>> = h[..done].iter().rev().map(|&s| Some(s)).collect();
+            let mut d = AnsCoder::<u8, u32, Reverse<Cursor<u8, Vec<u8>>>>::from_raw_parts(Reverse(c.bulk().0.clone()), c.state());
+            let dec: Vec<Option<usize>> = (0..done).map(|_| d.decode_symbol(&cat).ok()).collect();
+            if dec != expect {
+                viol(report, "AnsCoder on a bounded reversed backend | symbols encoded before a failed write do not decode".into(), format!("history {:?} capacity {cap}: decoded {:?}", h, dec));
+            }
+            if failed && done > 0 {
+                // a second refused write must be as harmless as the first, then room is made and encoding continues
+                let _ = c.encode_symbol(h[done], &cat);
+                let s_top = match c.decode_symbol(&cat) { Ok(s) => s, Err(_) => { viol(report, "AnsCoder on a bounded reversed backend | cannot decode after a refused write".into(), format!("history {:?} capacity {cap}", h)); continue; } };
+                if c.encode_symbol(s_top, &cat).is_err() {
+                    viol(report, "AnsCoder on a bounded reversed backend | cannot continue encoding after room was made".into(), format!("history {:?} capacity {cap}", h));
+                }
+                let mut d = AnsCoder::<u8, u32, Reverse<Cursor<u8, Vec<u8>>>>::from_raw_parts(Reverse(c.bulk().0.clone()), c.state());
+                let dec: Vec<Option<usize>> = (0..done).map(|_| d.decode_symbol(&cat).ok()).collect();
+                if dec != expect {
+                    viol(report, "AnsCoder on a bounded reversed backend | corrupted after failure + pop + push".into(), format!("history {:?} capacity {cap}: {:?}", h, dec));
                 }
             }
         }
